@@ -4495,17 +4495,14 @@ func (op *op) WriteTo(w io.Writer) (n int64, err error) {
 	}
 	binary.LittleEndian.PutUint32(buf[9:13], h.Sum32())
 
-	// Write to writer.
-	nn, err := w.Write(buf)
-	if err != nil {
-		return int64(nn), err
-	}
+	// Write to writer. The header and the roaring payload go out in a single
+	// write: with two writes, a process killed between them leaves an op
+	// header without its data at the end of the file, which the reader
+	// rejects, so the fragment could not be reopened.
 	if op.typ == 4 || op.typ == 5 {
-		var nn2 int
-		// separate write so we don't have to copy the whole thing
-		nn2, err = w.Write(op.roaring)
-		nn += nn2
+		buf = append(buf, op.roaring...)
 	}
+	nn, err := w.Write(buf)
 	return int64(nn), err
 }
 
